@@ -44,6 +44,7 @@ type FuncContract struct {
 	inline   bool
 	trusted  bool
 	opaque   []string // callees to treat as opaque (havoc) in this function
+	noSafety bool // run-time safety of this function is not checked: obligations hold for executions without panic
 	callMods map[string]*Clause // assumed frames of uninterpreted callees, stated at the caller
 	inlines  []string // callees to force-inline in this function
 	loops    map[int]*LoopContract
@@ -242,7 +243,7 @@ func parseSpecExpr(text string) (ast.Expr, error) {
 	return e, nil
 }
 
-var kwRe = regexp.MustCompile(`^(callmod|frameonly|puredyn|extern|macro|chan|gset|func|iface|spec|lemma|ghost|import|requires|ensures|modifies|inline|trusted|noverify|pure|fresh|loop|let|props|opaque|inlines|panics_when|depth|maxpaths|reveal|split|waitinv)\b`)
+var kwRe = regexp.MustCompile(`^(nosafety|callmod|frameonly|puredyn|extern|macro|chan|gset|func|iface|spec|lemma|ghost|import|requires|ensures|modifies|inline|trusted|noverify|pure|fresh|loop|let|props|opaque|inlines|panics_when|depth|maxpaths|reveal|split|waitinv)\b`)
 
 // ParseContractFile extracts contracts from the //@ lines of a file.
 func ParseContractFile(pkgPath, file string, src []byte, pc *PkgContracts) error {
@@ -506,6 +507,8 @@ func ParseContractFile(pkgPath, file string, src []byte, pc *PkgContracts) error
 				}
 			case "puredyn":
 				cur.pureDyn = true
+			case "nosafety":
+				cur.noSafety = true
 			case "inline":
 				cur.inline = true
 			case "trusted":
